@@ -221,6 +221,9 @@ def walk(h, rng, params, nsteps, profile, on_step=None, full_every=25, prefix=()
                     last_m = sent[-1]
                     key += ":" + str(last_m.get("msuccess", last_m.get("mvoteGranted")))
         res.cover[key] = res.cover.get(key, 0) + 1
+        for wv in out.get("wiring") or []:
+            res.failures.append({"signature": "shared-variable-not-shared:" + wv.split("[")[0],
+                                 "what": "deployment wiring (bootstrap/server.go): " + wv, "step": k})
         # oracle on the Go state
         if outcome in ("error:assert", "error:tlatype", "error:other", "hang"):
             res.failures.append({"signature": "generated-code-" + outcome.replace(":", "-") + ":" + out["label"],
